@@ -11,3 +11,5 @@
 (declare-fun hkey (Str Pos) Str)         ; the ancestor-path part of a node identity key (instance keyStep)
 (declare-fun itoa_ (INTSORT) Str)        ; strconv.Itoa
 (declare-fun hashkey (Pos) INTSORT)      ; the identity key of a node: FNV-1a of its rendering (instance hashkeyDef)
+(declare-fun re_match (Int Str) Bool)        ; (*regexp.Regexp).MatchString
+(declare-fun re_replace (Int Str Str) Str)   ; (*regexp.Regexp).ReplaceAllString
